@@ -92,7 +92,19 @@ def mir_schedule(F, path):
 def hir_schedule(F, path):
     fn = F.fn(path)
     ops = []
-    for n in FX.walk(fn["body"]):
+
+    def walk_no_closures(node):
+        # closures are separate MIR bodies: the per-function comparison leaves their contents out on both sides
+        stack = [node]
+        while stack:
+            n_ = stack.pop()
+            if isinstance(n_, dict) and "k" in n_:
+                yield n_
+                if n_["k"] == "Closure":
+                    continue
+            stack.extend(reversed(list(FX.children(n_))))
+
+    for n in walk_no_closures(fn["body"]):
         if n["k"] not in ("Call", "MethodCall"):
             continue
         ci = FX.callee_info(n)
